@@ -37,7 +37,7 @@ def one(name):
         if sh(f"git -C {wt} apply {d}/patch.diff").returncode != 0:
             return name, pid, "patch-does-not-apply", meta
         env = dict(os.environ, VERIF_REPO=wt, VERIF_OUT=scratch, VERIF_DRV=os.path.join(scratch, "drv"))
-        r = sh(f"cd {HOME} && ./check {pid} --no-audit", env=env)
+        r = sh(f"cd {HOME} && timeout 1800 ./check {pid} --no-audit", env=env)
         vl = [l for l in r.stdout.splitlines() if l.startswith("VIOLATION")]
         if r.returncode == 1 and vl:
             verdict = "caught-no-input" if "no-failing-input-found" in vl[0] else "caught"
